@@ -2,7 +2,9 @@ package main
 
 import (
 	"go/ast"
+	"go/token"
 	"sort"
+	"strconv"
 	"strings"
 
 	"golang.org/x/tools/go/ssa"
@@ -208,4 +210,114 @@ func init() {
 			}
 		},
 	})
+}
+
+func init() {
+	register(&Rule{
+		Name: "counted-loops-advance", Props: []string{"C16", "C17", "C12"}, Engine: "AST", Floor: 8,
+		Doc: "every counted loop of the library moves its counter towards its bound: a loop whose condition compares a variable with `<`, `<=` or `!=` against something steps it up in its post statement, one that compares with `>` or `>=` steps it down. A counter that moves the other way indexes below zero or past the end on its second round (a panic on a connection's goroutine ends the process) or never ends",
+		Run: func(p *Prog, r *Out) {
+			n := 0
+			var names []string
+			for name := range p.funcDecls {
+				names = append(names, name)
+			}
+			sortStrings(names)
+			for _, name := range names {
+				fd := p.funcDecls[name]
+				if fd.Body == nil {
+					continue
+				}
+				k := 0
+				ast.Inspect(fd.Body, func(nd ast.Node) bool {
+					fs, ok := nd.(*ast.ForStmt)
+					if !ok || fs.Cond == nil || fs.Post == nil {
+						return true
+					}
+					// the conjunct of the condition that mentions the stepped variable
+					var v string
+					dir := 0
+					switch x := fs.Post.(type) {
+					case *ast.IncDecStmt:
+						v = p.text(x.X)
+						if x.Tok == token.INC {
+							dir = +1
+						} else {
+							dir = -1
+						}
+					case *ast.AssignStmt:
+						if len(x.Lhs) != 1 || len(x.Rhs) != 1 {
+							return true
+						}
+						v = p.text(x.Lhs[0])
+						c, isConst := p.intConst(x.Rhs[0])
+						switch {
+						case x.Tok == token.ADD_ASSIGN && isConst && c > 0, x.Tok == token.ADD_ASSIGN && !isConst:
+							dir = +1
+						case x.Tok == token.SUB_ASSIGN && isConst && c > 0, x.Tok == token.SUB_ASSIGN && !isConst:
+							dir = -1
+						case x.Tok == token.ADD_ASSIGN && isConst && c < 0:
+							dir = -1
+						default:
+							return true // e = e.Next() and the like: not a counted loop
+						}
+					default:
+						return true
+					}
+					want := 0
+					for _, g := range conjunctsOf(fs.Cond) {
+						be, ok := ast.Unparen(g).(*ast.BinaryExpr)
+						if !ok {
+							continue
+						}
+						l, rr := p.text(be.X), p.text(be.Y)
+						op := be.Op
+						if rr == v && l != v {
+							// bound on the left: mirror
+							switch op {
+							case token.LSS:
+								op = token.GTR
+							case token.LEQ:
+								op = token.GEQ
+							case token.GTR:
+								op = token.LSS
+							case token.GEQ:
+								op = token.LEQ
+							}
+						} else if l != v {
+							continue
+						}
+						switch op {
+						case token.LSS, token.LEQ:
+							want = +1
+						case token.GTR, token.GEQ:
+							want = -1
+						}
+					}
+					if want == 0 {
+						return true
+					}
+					k++
+					n++
+					key := name + " loop " + strconv.Itoa(k) + " steps " + v + " towards its bound"
+					r.check(dir == want, key, p.pos(fs.Pos()), "condition and post statement agree on the direction", name+": the loop `for ...; "+p.text(fs.Cond)+"; "+p.text(fs.Post)+"` steps "+v+" away from its bound")
+					return true
+				})
+				if k > 0 {
+					r.fn(name)
+				}
+			}
+			if n == 0 {
+				r.undecided("counted loops", "?", "none found")
+			}
+		},
+	})
+}
+
+func conjunctsOf(e ast.Expr) []ast.Expr {
+	e = ast.Unparen(e)
+	if be, ok := e.(*ast.BinaryExpr); ok && be.Op == token.LAND {
+		return append(conjunctsOf(be.X), conjunctsOf(be.Y)...)
+	}
+	return []ast.Expr{e}
 }
